@@ -396,6 +396,64 @@ fn c18_jobs(tier: Tier) -> Vec<SeqJob> {
 
 // ---------------------------------------------------------------------------------------------
 
+/// C17, memory part: the C05/C18 driver under a hasher that maps keys 1 and 2 to the same 64-bit hash
+/// (key 3: same shard, different hash).
+fn c17_jobs(tier: Tier) -> Vec<SeqJob> {
+    let mut jobs = vec![];
+    let (d1, d2) = if tier == Tier::Quick { (3, 5) } else { (4, 8) };
+    let alphabet = vec![
+        ins(1, 1),
+        ins(2, 1),
+        ins(3, 1),
+        ins(2, 2),
+        ins_hold(1, 1),
+        get_hold(1),
+        get_hold(2),
+        get(1),
+        get(2),
+        Op::Touch { k: 2 },
+        Op::DropH { slot: 0 },
+        rm(1),
+        rm(2),
+        Op::Contains { k: 2 },
+        Op::Clear,
+    ];
+    for algo in Algo::defaults() {
+        for (capacity, shards) in [(2usize, 1usize), (4, 1), (4, 2)] {
+            let mut c = cfg(algo, capacity, shards, true, false);
+            // hash(1) == hash(2) == 6; hash(3) == 8: all three share the shard for 1 and 2 shards
+            c.hash_table = vec![0, 6, 6, 8];
+            jobs.push(SeqJob {
+                property: "C17",
+                owned: vec!["R.", "W.findable", "H.", "X."],
+                cfg: c,
+                universe: vec![1, 2, 3],
+                prologue: vec![],
+                alphabet: alphabet.clone(),
+                depth1: d1,
+                depth2: d2,
+                max_states: 20_000,
+                resize_any_depth: 0,
+                resize_last_depth: 0,
+                resize2_depth: 0,
+                epilogue: true,
+            });
+        }
+    }
+    jobs
+}
+
+pub fn c17_mem() -> MemProp {
+    MemProp {
+        id: "C17",
+        owned: vec!["R.", "W.findable", "H.", "X."],
+        jobs: c17_jobs,
+        rule: "Engine S (memory part of C17): every sequence over {insert k1, k2 (two weights), k3, insert-and-hold, get / get-and-hold of k1 and k2, touch, drop, remove k1 / k2, contains, clear} up to the pass-1 depth plus deduplicated breadth-first search, five algorithms, under a user hasher with hash(k1) == hash(k2) (k3 shares only the shard); the ledger requires that lookups, removes and contains of one key never see the other key's entry and that both can be resident at once.",
+        assumptions: vec!["single caller thread"],
+        need_evictions: false,
+    }
+}
+
 pub fn props() -> Vec<MemProp> {
     vec![
         MemProp {
